@@ -715,6 +715,10 @@ func (d *urlValuesDecoder) DecodeObject(param string, sm *openapi3.Serialization
 			}
 		}
 	}
+	if !found && sm.Style == "form" && sm.Explode && schema.Value.AdditionalProperties.Schema == nil {
+		// none of the object's properties is among the query parameters: the parameter is absent
+		return nil, false, nil
+	}
 
 	return val, found, nil
 }
